@@ -8,7 +8,8 @@
 (*   [op |-> "rv"]   the version group is read                             *)
 (*   [op |-> "send"] a notification is put on the wire                     *)
 (*   [op |-> "begin"] thread start, [op |-> "run"] continues after a release *)
-(* "mdib" is re-entrant (RLock), "tr" is a plain lock.                     *)
+(* "mdib" is re-entrant (RLock), "tr" is a plain lock; "cons" is the lock   *)
+(* of the consumer's OperationsManager (C09).                              *)
 (* sched is part of the state: every terminal state is one schedule; it is *)
 (* printed and replayed on the real threads.  Snapshot / InOrder are the   *)
 (* model's PREDICTIONS; the verdict comes from the replay.                 *)
@@ -21,7 +22,7 @@ VARIABLES pc, holder, depth, mver, lockedV, seenV, wire, sched
 vars == <<pc, holder, depth, mver, lockedV, seenV, wire, sched>>
 
 T == DOMAIN Prog
-Locks == {"tr", "mdib", "txid"}
+Locks == {"tr", "mdib", "txid", "cons"}
 Free == 0
 Reentrant(lk) == lk = "mdib"
 
